@@ -215,6 +215,17 @@ def run(src, tier, seed):
                 % (sorted(map(str, bad)), ('; other conditions: %s' % sorted(c2.unknown)) if c2.unknown else ''))
     else:
         res.ok(r, 'minimize: hiddenTerms gets every current assertion unless termNames.contains(term)')
+    # whether an assertion is "named" must be a property of the assertion, not of its term: terms are hash-consed, so the same formula asserted once with and
+    # once without a name is one PTRef, and a test on the term treats the unnamed occurrence as named too
+    r2 = res.rule('named-status-per-assertion', 'the loop that builds the unnamed background decides "named" per assertion occurrence, not by asking whether the assertion\'s term has a name', floor=1)
+    by_term = [x for x in walk(bl['body']) if x.get('k') == 'call' and mname(x) in ('contains', 'count', 'find', 'has') and x.get('a') and path_of(x['a'][0]) == bl.get('var')
+               and 'TermNames' in ((x.get('cls') or '') + str(x.get('recv')))]
+    if by_term:
+        res.bad(r2, 'named-by-term-identity', fx.loc(mi, by_term[0].get('ln')), 'UnsatCoreBuilder::minimize leaves an assertion out of the unnamed background whenever its *term* has a name '
+                '(termNames.%s(term)): a formula asserted both without and with a name is one hash-consed term, its unnamed occurrence is missing from the background, and the named one stays in '
+                'the "minimal" core although it is redundant (replays/C07/same-formula-named-and-unnamed.smt2)' % mname(by_term[0]))
+    else:
+        res.ok(r2, 'minimize: the named / unnamed decision does not go through the term-keyed name table')
     mk = [x for x in fwalk(mi) if x.get('k') in ('new', 'init', 'call') and 'Minimize' in (x.get('t') or '') + (callee(x) if x.get('k') == 'call' else '')
           and any(y.get('k') == 'mem' and y.get('n') == 'hiddenTerms' or (y.get('k') == 'ref' and y.get('n') == 'hiddenTerms') for y in walk(x))]
     if mk:
